@@ -336,7 +336,7 @@ func (w *Weaver) weaveFile(fset *token.FileSet, f *ast.File, src []byte, rel str
 			if id, ok := x.X.(*ast.Ident); ok {
 				if opt.SyncTypes && hasSync && id.Name == syncName {
 					switch x.Sel.Name {
-					case "Mutex", "RWMutex", "Once", "Pool":
+					case "Mutex", "RWMutex", "Once", "Pool", "OnceFunc", "OnceValue", "OnceValues":
 						add(off(x.Pos()), off(x.End())-off(x.Pos()), alias+"."+x.Sel.Name)
 						w.Stats.SyncReplaced++
 						usedSync = true
